@@ -206,14 +206,21 @@ func (g *Gen) zone(z Name, o Opts, depth int) {
 		g.Addr(z.Child("q").Child("p"), false, g.randIP(), nil, 1)
 	}
 	if o.Long {
-		long := z
-		for len(long.Pack()) < 128+g.R.Intn(100) {
-			long = long.Child(strings.Repeat(string(rune('a'+g.R.Intn(3))), 10+g.R.Intn(50)))
-		}
-		if len(long.Pack()) <= 250 {
-			g.records(long, o, 2)
-			if g.R.Chance(1, 2) && len(long) > 3 {
-				g.Addr(long[2:], true, g.randIP(), g.loc(o.Located), 1)
+		// two long names: one whose key (2 + packed name) is 96..191 bytes long, one of 192 bytes and more
+		for _, target := range []int{100 + g.R.Intn(80), 192 + g.R.Intn(40)} {
+			long := z
+			for len(long.Pack())+12 < target {
+				n := target - len(long.Pack()) - 2
+				if n > 50 {
+					n = 10 + g.R.Intn(40)
+				}
+				long = long.Child(strings.Repeat(string(rune('a'+g.R.Intn(3))), n))
+			}
+			if len(long.Pack()) <= 250 {
+				g.records(long, o, 2)
+				if g.R.Chance(1, 2) && len(long) > 3 {
+					g.Addr(long[2:], true, g.randIP(), g.loc(o.Located), 1)
+				}
 			}
 		}
 	}
